@@ -50,4 +50,34 @@ def decode (ck : Bytes → Bytes) (off : Nat) (buf : Bytes) : Option (Nat × Nat
     let i := getLE ib
     if s ≥ off || i ≥ off then none else some (s, i, getBE tb)
 
+/-! ## the checksum the code uses (util/cksum): low 16 bits of crc32-Castagnoli, little endian -/
+
+/-- reversed Castagnoli polynomial (Go `crc32.Castagnoli`) -/
+def crcPoly : UInt32 := 0x82F63B78
+
+def crcBit (c : UInt32) : UInt32 :=
+  if c &&& 1 == 1 then (c >>> 1) ^^^ crcPoly else c >>> 1
+
+/-- one byte of the bitwise (table-free) crc: `crc32.simpleUpdate` with the table entry unfolded -/
+def crcByte (c : UInt32) (b : UInt8) : UInt32 :=
+  crcBit (crcBit (crcBit (crcBit (crcBit (crcBit (crcBit (crcBit (c ^^^ b.toUInt32))))))))
+
+/-- `crc32.Checksum(data, crc32.MakeTable(crc32.Castagnoli))` -/
+def crc32c (bs : Bytes) : UInt32 := (bs.foldl crcByte 0xFFFFFFFF) ^^^ 0xFFFFFFFF
+
+/-- the two bytes `cksum.Update` stores: `byte(cs), byte(cs >> 8)` -/
+def cksum (bs : Bytes) : Bytes :=
+  let c := crc32c bs
+  [c.toUInt8, (c >>> 8).toUInt8]
+
+/-- `writeState` with the real checksum -/
+def encodeReal (t offS offI : Nat) : Bytes := encode cksum t offS offI
+
+/-- `readState` with the real checksum -/
+def decodeReal (off : Nat) (buf : Bytes) : Option (Nat × Nat × Nat) := decode cksum off buf
+
+/-- the position of every field in the 36 byte record, as the code computes them
+(`i := len(magic1)`, `i += dateSize`, …, `magic2at`) -/
+def fieldOffsets : List Nat := [0, 8, 16, 21, 26, 28, 36]
+
 end Gsu.StateRec
